@@ -85,6 +85,7 @@ Print Assumptions or_skips_right.
 Definition dec (ds : list Z) : ilit := mk_ilit Dec ds false 0.
 Definition decu (ds : list Z) : ilit := mk_ilit Dec ds true 0.
 Definition hex (ds : list Z) : ilit := mk_ilit Hex ds false 0.
+Definition zero : ilit := mk_ilit Oct [] false 0.          (* the literal "0" is an octal literal *)
 Definition ilit_e {F} (l : ilit) : expr F := ELit (LInt l).
 
 (* ------------------------------------------------------------------ the pinned code violates the property
@@ -120,7 +121,7 @@ Theorem eager_and_refuted :          (* 0 && (1 / 0) is false in C++; OCCA divid
   forall (F : Type) (ops : fops F), exists (e : expr F) v,
     cpp_eval ops e = Some v /\ eval ops pinned e = UB.
 Proof.
-  intros. exists (EBin LAnd (ilit_e (dec [0])) (EBin Div (ilit_e (dec [1])) (ilit_e (dec [0])))), (CI TBool 0).
+  intros. exists (EBin LAnd (ilit_e zero) (EBin Div (ilit_e (dec [1])) (ilit_e zero))), (CI TBool 0).
   split; vm_compute; reflexivity.
 Qed.
 Print Assumptions eager_and_refuted.
@@ -137,11 +138,11 @@ Proof.
   exists (EBin Eq (ilit_e (dec [1])) (ELit (LFloat false one))), (CI TBool 1).
   split.
   - cbn. rewrite Hfin. cbn. rewrite Heq. reflexivity.
-  - cbn. unfold float_binop. cbn. unfold raw_read, raw_bits. cbn.
-    change (1 mod 4294967296 mod 18446744073709551616) with 1.
-    destruct (1 =? fbits ops false one mod 18446744073709551616) eqn:E.
+  - assert (Hm : eval ops pinned (EBin Eq (ilit_e (dec [1])) (ELit (LFloat false one))) =
+                 Val (pbool (1 =? fbits ops false one mod 2 ^ 64))) by reflexivity.
+    rewrite Hm. destruct (1 =? fbits ops false one mod 2 ^ 64) eqn:E.
     + apply Z.eqb_eq in E. congruence.
-    + cbn. discriminate.
+    + intro Hc. inversion Hc.
 Qed.
 Print Assumptions mixed_eq_refuted.
 
@@ -202,7 +203,7 @@ Proof. intros. repeat split; vm_compute; reflexivity. Qed.
 Example guarded_division_example :
   forall (F : Type) (ops : fops F),
     let e : expr F :=
-      EBin LOr (ilit_e (dec [1])) (EBin Div (ilit_e (dec [1])) (ilit_e (dec [0]))) in
+      EBin LOr (ilit_e (dec [1])) (EBin Div (ilit_e (dec [1])) (ilit_e zero)) in
     guards e = true /\ cpp_eval ops e = Some (CI TBool 1) /\ eval ops fixed e = Val (PI KBool 1) /\
     eval ops pinned e = UB.
 Proof. intros. repeat split; vm_compute; reflexivity. Qed.
